@@ -25,7 +25,11 @@ struct World {
 	uint32_t   seq[NPUSH]         = {0, 0};
 	std::set<uint32_t>                   accepted, received;
 	std::map<std::pair<int, uint32_t>, uint32_t> last; // (pusher, receiving pipe id) -> last tag seen on that connection
-	bool wire_used[NPUSH] = {false, false};    // pusher ever connected through a kernel transport (kernel buffers absorb messages)
+	bool wire_used[NPUSH] = {false, false};
+	// a blocked (asynchronous) send was submitted after these synchronously accepted messages: it must not overtake them
+	std::map<uint32_t, uint32_t> async_after;                              // async tag -> last tag accepted synchronously before its submission
+	std::map<std::pair<int, uint32_t>, std::pair<uint32_t, uint32_t>> overtaken; // (pusher, pipe) -> (highest such bound seen on that connection, the async tag that carried it)
+	uint32_t last_sync[NPUSH] = {0, 0};    // pusher ever connected through a kernel transport (kernel buffers absorb messages)
 	std::vector<Pending *>               pend[NPUSH];
 	bool pipe_closed  = false;
 	bool shrink_loss  = false;
@@ -115,6 +119,20 @@ got(World &W, int q, nng_msg *m)
 	// Order is judged among synchronously accepted sends only: their acceptance order is their call
 	// order.  A blocked asynchronous send is accepted at an unobservable later moment (it may be
 	// overtaken by a later send that found room), so it carries no ordering obligation.
+	if (tag & 0x800000) {
+		auto a = W.async_after.find(tag);
+		if (a != W.async_after.end()) {
+			auto &o = W.overtaken[std::make_pair(p, pipeid)];
+			if (a->second > o.first)
+				o = std::make_pair(a->second, tag);
+		}
+	} else {
+		// a message that had been accepted before a blocked send was even submitted cannot arrive after it on the same connection
+		auto ov = W.overtaken.find(std::make_pair(p, pipeid));
+		if (ov != W.overtaken.end())
+			VR_CHECK(tag > ov->second.first, "C06:reordered", "connection pusher %d -> puller %d delivered %x after the blocked send %x, which was submitted when %x had already been accepted", p, q,
+			    tag, ov->second.second, tag);
+	}
 	if (!(tag & 0x800000)) {
 		auto key = std::make_pair(p, pipeid);
 		auto it  = W.last.find(key);
@@ -232,6 +250,7 @@ exec_c06(const vcase *vc)
 				vr_tag("empty_message");
 			} else if (rv == 0) {
 				W.accepted.insert(tag);
+				W.last_sync[p] = tag;
 			} else {
 				VR_CHECK(at_is_live(m), "C06:failed-send-lost-message", "send failed with %d but the message was released", rv);
 				nng_msg_free(m);
@@ -246,6 +265,7 @@ exec_c06(const vcase *vc)
 				continue;
 			Pending *pd = new Pending();
 			pd->tag     = ((uint32_t) p << 24) | 0x800000 | ++W.seq[p];
+			W.async_after[pd->tag] = W.last_sync[p];
 			pd->t0      = vs_now();
 			pd->timeout = a1;
 			H_OK(nng_aio_alloc(&pd->aio, send_cb, pd));
